@@ -1267,6 +1267,57 @@ func ruleLoaderCacheSSA(c *Ctx) *loaderSSA {
 						}
 					}
 				}
+				// ... nor is any part of the entry filled in (or left empty) depending on a configured limit: a file that
+				// was "too large" when it was first seen stays a journal-less entry after the limit was raised
+				if bad == "" {
+					for v := range sl {
+						al, isAlloc := v.(*ssa.Alloc)
+						if !isAlloc || al.Referrers() == nil {
+							continue
+						}
+						for _, r := range *al.Referrers() {
+							fa, isFa := r.(*ssa.FieldAddr)
+							if !isFa || fa.Referrers() == nil {
+								continue
+							}
+							for _, r2 := range *fa.Referrers() {
+								st, isSt := r2.(*ssa.Store)
+								if !isSt || st.Addr != ssa.Value(fa) {
+									continue
+								}
+								// only conditions under which the entry is stored either way (a limit that makes the load give up
+								// before anything is cached is not a cached verdict): both branches reach the store into the
+								// cache, one of them fills the field in
+								for _, d := range st.Parent().Blocks {
+									ifi, isIf := lastInstr(d).(*ssa.If)
+									if !isIf || len(d.Succs) != 2 {
+										continue
+									}
+									if !(reachesBlock(d.Succs[0], mu.Block()) && reachesBlock(d.Succs[1], mu.Block())) {
+										continue
+									}
+									r0, r1 := reachesBlock(d.Succs[0], st.Block()), reachesBlock(d.Succs[1], st.Block())
+									if r0 == r1 {
+										continue
+									}
+									cc := ctrlCond{Cond: ifi.Cond}
+									for w := range backSlice(cc.Cond) {
+										switch x := w.(type) {
+										case *ssa.FieldAddr:
+											if typeHasSuffix(x.X.Type(), "include.Limits") {
+												bad = "a verdict taken under a configured limit (" + fieldVarOfAddr(x).Name() + " decides whether " + fieldVarOfAddr(fa).Name() + " is filled in): a later change of the setting does not reach files judged before"
+											}
+										case *ssa.Field:
+											if typeHasSuffix(x.X.Type(), "include.Limits") {
+												bad = "a verdict taken under a configured limit: a later change of the setting does not reach files judged before"
+											}
+										}
+									}
+								}
+							}
+						}
+					}
+				}
 				c.check(bad == "", "G-CACHEPURE", funcName(f), "cached entry depends on the file alone", mu.Pos(),
 					"nothing of the including directive flows into the cache entry",
 					"the entry stored in the per-file cache carries "+bad+": later loads that reach the file through another directive (or after the directive moved) are answered with the first asker's data")
